@@ -57,6 +57,14 @@ func c11Cells(full bool) []lat {
 			}
 		}
 	}
+	// the first key installed after the node was created (nothing about the budget may be cached at creation)
+	for _, enc := range []string{"v1", "v0"} {
+		for _, lb := range []string{"", "L"} {
+			for _, pm := range []uint8{4, 5} {
+				out = append(out, lat{Enc: enc, KeyLen: 16, Label: lb, PeerPMax: pm, IPNames: true, UDPBuf: 512, LateKey: true})
+			}
+		}
+	}
 	// padding alignment: encryption version 0 pads to the AES block size, so every residue of
 	// the budget modulo 16 is a different case: 16 consecutive buffer sizes
 	for ub := 497; ub <= 512; ub++ {
@@ -74,6 +82,14 @@ func c11Contents(full bool) []c11Content {
 		{0, "min", 1, "1"}, {1, "min", 0, "1"}, {2, "mid", 2, "40"}, {3, "max", 1, "fill"}, {3, "mix", 1, "fill-1"},
 		{22, "min", 0, "1"}, {0, "min", 300, "1"}, {0, "min", 700, "2"}, {1, "min", 257, "1"}, {300, "mix", 300, "mix"},
 		{2, "max", 255, "1"}, {0, "min", 254, "1"},
+		// a lone membership broadcast (sent "as is", not re-packed), retransmitted: whether the encoder's
+		// buffer has spare room behind the message depends on its size
+		{1, "mid", 0, "1"}, {1, "max", 0, "1"}, {1, "n7", 0, "1"}, {1, "n20", 0, "1"}, {1, "n40", 0, "1"}, {1, "n200", 0, "1"},
+	}
+	if full {
+		for k := 1; k <= 512; k++ {
+			out = append(out, c11Content{1, fmt.Sprintf("n%d", k), 0, "1"})
+		}
 	}
 	if full {
 		// the full product of the design's count and size menus
@@ -159,7 +175,7 @@ func runC11Cell(t *testing.T, l lat, contents []c11Content, rep *Report) (cases 
 					if name == pairNamesS(l) {
 						c.Delegate = fd
 					}
-					c.RetransmitMult = 1
+					c.RetransmitMult = 3
 				})
 				s, r := p.s, p.r
 				// stock the queue
@@ -168,8 +184,12 @@ func runC11Cell(t *testing.T, l lat, contents []c11Content, rep *Report) (cases 
 					meta []byte
 				}
 				var queued []mb
+				origMsgs := map[string]bool{}
 				for i := 0; i < ct.M; i++ {
 					sz := map[string]int{"min": 0, "mid": 100, "max": 512}[ct.MMeta]
+					if strings.HasPrefix(ct.MMeta, "n") {
+						fmt.Sscanf(ct.MMeta, "n%d", &sz) // explicit metadata size
+					}
 					if ct.MMeta == "mix" {
 						sz = []int{0, 512, 100, 7}[i%4]
 					}
@@ -181,6 +201,8 @@ func runC11Cell(t *testing.T, l lat, contents []c11Content, rep *Report) (cases 
 					}
 					a := &ml.VAlive{Incarnation: 5, Node: nm, Addr: ip4(210), Port: 7946, Meta: meta, Vsn: defaultVsn}
 					buf, _ := ml.VEncode(ml.VAliveMsg, a, false)
+					origMsgs[string(buf)] = true
+					// queued exactly as the library queues its own broadcasts: the encoder's buffer, spare capacity included
 					s.M.VQueueBroadcast(nm, buf, nil)
 					queued = append(queued, mb{nm, meta})
 				}
@@ -204,7 +226,10 @@ func runC11Cell(t *testing.T, l lat, contents []c11Content, rep *Report) (cases 
 						p.Tap = append(p.Tap, tapRec{From: s.Name, To: pk.To, Buf: pk.Buf})
 						r.T.Deliver(pk.Buf, s.Addr)
 					}
-					s.M.VGossip()
+					// three rounds: a broadcast is retransmitted, and every transmission must still be the message
+					for round := 0; round < 3; round++ {
+						s.M.VGossip()
+					}
 					s.T.OnSend = orig
 				}
 				settle()
@@ -227,6 +252,9 @@ func runC11Cell(t *testing.T, l lat, contents []c11Content, rep *Report) (cases 
 					}
 				}
 				packed := len(handed) + len(fd.given)
+				for _, g := range fd.given {
+					origMsgs[string(append([]byte{ml.VUserMsg}, g...))] = true
+				}
 				// budget: every buffer that carries queued broadcasts
 				for _, tp := range p.Tap {
 					if tp.From != s.Name {
@@ -237,8 +265,26 @@ func runC11Cell(t *testing.T, l lat, contents []c11Content, rep *Report) (cases 
 							fmt.Sprintf("%v path=%s %v: %d-byte packet for a %d-byte limit (%d broadcasts packed)", l, path, ct, len(tp.Buf), s.Cfg.UDPBufferSize, packed), cs)
 						rep.Outcome("over-budget")
 					}
-					if _, err := peelPacket(tp.Buf, keysIf(keys, !l.NoVerOut)); err != nil {
+					pl, err := peelPacket(tp.Buf, keysIf(keys, !l.NoVerOut))
+					if err != nil {
 						rep.Violate("unpeelable-packet", fmt.Sprintf("%v path=%s %v: %v", l, path, ct, err), cs)
+						continue
+					}
+					// every part the receiver will unpack is, byte for byte, a message that was queued / handed out
+					// (or the message the broadcasts ride on)
+					leaves, err := explode(pl.Plain)
+					if err != nil {
+						rep.Violate("unpackable-packet", fmt.Sprintf("%v path=%s %v: %v", l, path, ct, err), cs)
+						continue
+					}
+					for li, lf := range leaves {
+						if li == 0 && path != "gossip" {
+							continue // the primary message
+						}
+						if !origMsgs[string(lf)] {
+							rep.Violate("packed-message-corrupted:"+pathClass(path), fmt.Sprintf("%v path=%s %v: part %d of a packet (%d bytes, type %d) is not one of the messages that were queued", l, path, ct, li, len(lf), lf[0]), cs)
+							break
+						}
 					}
 				}
 				// receiver side
